@@ -399,6 +399,9 @@ func (c16) RunCase(c *core.Ctx) {
 				sc[k] = ch
 				nm.fields[k] = ch
 			}
+			if len(sc) == 0 && r.Bool() {
+				sc = nil // a seed built from a nil Schema (var fields z.Schema) is as good as one built from an empty one
+			}
 			nm.real = z.Struct(sc)
 			for i := 0; i < []int{0, 1, 3, 5, 6, 7, 9}[r.Intn(7)]; i++ {
 				id, t := h.newTest()
